@@ -35,11 +35,19 @@ def variants(model):
     for i in range(len(lvs)):
         for j in range(i + 1, len(lvs)):
             if lvs[i][0] == 'el' and lvs[j][0] == 'el' and lvs[i][4] == lvs[j][4]:
-                for ta, tb in (('anon1', 'anon2'), ('anon1', 'anon3'), ('anon1', None)):
+                for ta, tb in (('anon1', 'anon2'), ('anon1', 'anon3'), ('anon1', None),
+                               ('untyped', 'anyType'), ('anyType', 'untyped'), ('anyType', 'anyType')):
                     m2 = M.replace_leaf(model, i, lambda o, ta=ta: M.el_typed(o[4], ta, o[1], o[2]))
                     if tb:
                         m2 = M.replace_leaf(m2, j, lambda o, tb=tb: M.el_typed(o[4], tb, o[1], o[2]))
                     yield m2
+    # a deep substitution group (z substitutes y only through an abstract member) against a reference to its
+    # head, its deep member or the head again: two leaves replaced
+    for i in range(len(lvs)):
+        for j in range(len(lvs)):
+            if i != j:
+                m2 = M.replace_leaf(model, i, lambda o: M.head(o[1], o[2], deep=True))
+                yield M.replace_leaf(m2, j, lambda o: M.el_ref('z', o[1], o[2]))
     for i, lf in enumerate(lvs):
         name = lf[4]
         yield M.replace_leaf(model, i, lambda o: M.el_typed(o[4], 'int', o[1], o[2]))
